@@ -229,6 +229,9 @@ def stmt_case(rng):
         else:
             v = rng.choice([rand_scalar(rng), rand_seq(rng)])
         return {'kind': 'eq', 'd': d, 'col': col, 'v': v}
+    if r < 0.9:
+        return {'kind': 'like', 'd': d, 'helper': rng.choice(['startswith', 'endswith', 'contains']),
+                'x': R.cps(rand_string(rng, 10))}
     col = rng.choice(['s', 'n', 'field'])
     if col == 'n':
         vals = [vi(rand_int(rng)) for _ in range(rng.randint(0, 4))]
@@ -294,6 +297,10 @@ def corpus():
         {'kind': 'value', 'v': vs("\\'")},
         {'kind': 'db', 'xs': [R.cps("x'); DELETE FROM %s; --" % TABLE), R.cps("\\")]},
         {'kind': 'db', 'xs': [R.cps("a\x00b")]},
+        # seeded scenario: a LIKE filter rendered more than once (count() then iteration; logging before use)
+        {'kind': 'db', 'xs': [R.cps('100%'), R.cps('100 percent'), R.cps('snake_case'), R.cps('C:\\temp')]},
+        {'kind': 'like', 'd': 'sqlite', 'helper': 'startswith', 'x': R.cps('50%_\\')},
+        {'kind': 'like', 'd': 'mysql', 'helper': 'contains', 'x': R.cps('a\\b')},
         {'kind': 'enum', 'values': [R.cps("a'b"), R.cps('x')], 'other': R.cps("a''b")},
         {'kind': 'enum', 'values': [R.cps('a\\b')], 'other': R.cps('q')},
     ]
@@ -468,11 +475,51 @@ def _stmt(env, c):
             col = getattr(T.q, c['col'])
             name = '%s.%s' % (T.sqlmeta.table, c['col'])
         if k == 'eq':
-            e = (col == py_of(c['v']))
+            mk = lambda: (col == py_of(c['v']))
         else:
-            e = sqlbuilder.IN(col, [py_of(v) for v in c['vs']])
-        return {'text': R.cps(sqlrepr(e, d)), 'col': R.cps(name)}
+            mk = lambda: sqlbuilder.IN(col, [py_of(v) for v in c['vs']])
+        return dict(_rerender(mk, d), col=R.cps(name))
+    if k == 'like':
+        x = R.from_cps(c['x'])
+        mk = lambda: getattr(T.q.s, c['helper'])(x)
+        o = _rerender(mk, d)
+        pat = _render(mk().string, d)
+        r = R.lex_lit(d, pat)
+        o['pattern'] = R.cps(pat)
+        o['pattern_lex'] = [r[0]] + ([R.cps(r[1]), R.cps(r[2])] if r[0] == 'ok' else [r[1]])
+        return o
     raise ValueError(k)
+
+
+LIMIT = 20000
+IMPL_TIMEOUT = 900
+
+
+class Oversize(Exception):
+    pass
+
+
+def _render(obj, d):
+    from sqlobject.converters import sqlrepr
+    t = sqlrepr(obj, d)
+    if len(t) > LIMIT:
+        raise Oversize('%d characters' % len(t))
+    return t
+
+
+def _rerender(mk, d):
+    """text = first rendering of a fresh expression object; `again` = what ONE object gives when it is rendered for d,
+    for another dialect, and for d again (an expression must not remember anything)"""
+    text = _render(mk(), d)
+    e = mk()
+    other = 'mysql' if d != 'mysql' else 'postgres'
+    again = []
+    try:
+        for dd in (other, d, d):
+            again.append([dd, R.cps(_render(e, dd))])
+    except Oversize as ex:
+        again.append(['oversize', str(ex)])
+    return {'text': R.cps(text), 'again': again, 'fresh_other': R.cps(_render(mk(), other))}
 
 
 def _db(env, c):
@@ -506,13 +553,32 @@ def _db(env, c):
     sel = []
     for x in xs:
         q = {'x': R.cps(x), 'expect': sorted(i for i, s in truth.items() if s == x)}
-        for name, fn in (('eq', lambda: T.select(T.q.s == x)), ('by', lambda: T.selectBy(s=x)),
-                         ('in', lambda: T.select(IN(T.q.s, [x, 'no such value \\ %']))),
-                         ('ne', lambda: T.select(T.q.s != x))):
+        def used(clause):
+            # a filter object that was already rendered (for logging, for another backend) before it is used
+            from sqlobject.converters import sqlrepr
+            for dd in ('mysql', 'postgres', 'sqlite'):
+                if len(sqlrepr(clause, dd)) > LIMIT:
+                    raise Oversize(dd)
+            return T.select(clause)
+        fx = R.fold_ascii(x)
+        for name, fn in (('eq', lambda: used(T.q.s == x)), ('by', lambda: T.selectBy(s=x)),
+                         ('in', lambda: used(IN(T.q.s, [x, 'no such value \\ %']))),
+                         ('ne', lambda: used(T.q.s != x)),
+                         ('starts', lambda: used(T.q.s.startswith(x))), ('ends', lambda: used(T.q.s.endswith(x))),
+                         ('contains', lambda: used(T.q.s.contains(x)))):
             try:
-                q[name] = sorted(r.id for r in fn())
+                sr = fn()
+                n = sr.count()
+                first = sorted(r.id for r in sr)
+                second = sorted(r.id for r in sr)
+                q[name] = first
+                if n != len(first) or second != first:
+                    q[name] = ['unstable', n, first, second]
             except Exception as e:
                 q[name] = ['exc', _exc(e)]
+        q['expect_starts'] = sorted(i for i, t in truth.items() if t is not None and R.fold_ascii(t).startswith(fx))
+        q['expect_ends'] = sorted(i for i, t in truth.items() if t is not None and R.fold_ascii(t).endswith(fx))
+        q['expect_contains'] = sorted(i for i, t in truth.items() if t is not None and fx in R.fold_ascii(t))
         q['expect_ne'] = sorted(i for i, s in truth.items() if s is not None and s != x)
         sel.append(q)
     o['select'] = sel
@@ -647,7 +713,7 @@ def coq_case(c, o):
         if eng is not None and eng[0] not in ('reject', 'text', 'int'):
             return 'CValue %s %s %s (EText [0; 0; 0])' % (coq_value(v), texts, dec)   # unexpected engine answer: disagree
         return 'CValue %s %s %s %s' % (coq_value(v), texts, dec, coq_engine(eng))
-    if k in ('db', 'enum'):
+    if k in ('db', 'enum', 'like'):
         return 'COracleOnly'
     if 'text' not in o:
         # the implementation raised where the model renders: encode as an impossible text
@@ -803,13 +869,17 @@ def oracle(c, o):
                         'stored': None if st.get('stored') is None else R.from_cps(st['stored'])}
         for q in o['select']:
             bad = any(cp == 0 or 0xD800 <= cp <= 0xDFFF for cp in q['x'])
-            for name in ('eq', 'by', 'in'):
+            for name, exp in (('eq', 'expect'), ('by', 'expect'), ('in', 'expect'), ('starts', 'expect_starts'),
+                              ('ends', 'expect_ends'), ('contains', 'expect_contains')):
                 got = q[name]
                 if got and got[0] == 'exc':
                     if not bad:
                         return {'what': 'select (%s) raised %s' % (name, got[1]), 'x': R.from_cps(q['x'])}
-                elif got != q['expect']:
-                    return {'what': 'select (%s) returned other rows' % name, 'x': R.from_cps(q['x']), 'got': got, 'expected': q['expect']}
+                elif got and got[0] == 'unstable':
+                    return {'what': 'count(), iteration and a second iteration of ONE select (%s) disagree' % name,
+                            'x': R.from_cps(q['x']), 'count': got[1], 'rows': got[2], 'rows_again': got[3], 'expected': q[exp]}
+                elif got != q[exp]:
+                    return {'what': 'select (%s) returned other rows' % name, 'x': R.from_cps(q['x']), 'got': got, 'expected': q[exp]}
             got = q['ne']
             if got and got[0] == 'exc':
                 if not bad:
@@ -843,6 +913,21 @@ def oracle(c, o):
     # values stream and the model; here only "did not raise"
     if 'exc' in o:
         return {'what': 'the statement template raised %s' % o['exc']}
+    if 'again' in o:
+        want = {c['d']: o['text']}
+        for item in o['again']:
+            if item[0] == 'oversize':
+                return {'dialect': c['d'], 'what': 'rendering the same expression object again keeps growing the text (%s)' % item[1],
+                        'first': R.from_cps(o['text'])}
+            w = want.get(item[0], o['fresh_other'])
+            if item[1] != w:
+                return {'dialect': item[0], 'what': 'the same expression object renders differently after earlier renderings',
+                        'order': [x[0] for x in o['again']], 'fresh_object': R.from_cps(w), 'reused_object': R.from_cps(item[1])}
+    if k == 'like':
+        r = o['pattern_lex']
+        x = c['x']
+        if r[0] == 'bad' or (r[0] == 'ok' and r[2] != []):
+            return {'dialect': c['d'], 'what': 'the LIKE pattern operand is not one complete literal', 'text': R.from_cps(o['pattern'])}
     return None
 
 
